@@ -177,8 +177,10 @@ type abciDriver struct {
 func newABCIDriver(t *rapid.T, g ABCIGenesis) *abciDriver {
 	gen := GenesisBytes(g.Spec())
 	d := &abciDriver{t: t, gen: g, accepted: map[string]int{}, freshNo: 5000}
-	d.c = NewChainFromGenesis(gen, 1, T0)
-	d.hist = ConcreteHistory{Genesis: base64.StdEncoding.EncodeToString(gen), InitialHeight: 1, GenesisTimeNs: T0.UnixNano()}
+	// (a chain need not start at height 1: a genesis file exported from another chain carries its height)
+	h0 := []int64{1, 1, 1, 2, 100, 7_654_321}[rapid.IntRange(0, 5).Draw(t, "initialHeight")]
+	d.c = NewChainFromGenesis(gen, h0, T0)
+	d.hist = ConcreteHistory{Genesis: base64.StdEncoding.EncodeToString(gen), InitialHeight: h0, GenesisTimeNs: T0.UnixNano()}
 	return d
 }
 
@@ -411,7 +413,7 @@ func (d *abciDriver) shapeTx(label string, p *plannedTx) (o TxOpts) {
 	return o
 }
 
-var abciDts = []int64{secNs, 5 * secNs, 11 * secNs, 60 * secNs, dayNs, 30 * dayNs}
+var abciDts = []int64{1, msNs, secNs, 5 * secNs, 11 * secNs, 60 * secNs, dayNs, 30 * dayNs}
 
 // genBlock generates and executes one block on d.c, returns its trace.
 func (d *abciDriver) genBlock(label string) BlockTrace {
